@@ -2,6 +2,7 @@ package main
 
 import (
 	"fmt"
+	"go/ast"
 	"go/token"
 	"go/types"
 	"sort"
@@ -368,4 +369,211 @@ func genericRdlengthZero(c *Ctx, r *Report, rule string) {
 	}
 	sort.Strings(bad)
 	r.check(len(sets) > 0 && len(bad) == 0, rule, "fromRFC3597", c.pos(fn.Pos()), "Rdlength reset", "success is returned at %s with the length of the generic RDATA still in Hdr.Rdlength: `foo A \\# 4 0a000001` and `foo A 10.0.0.1` give records that differ in the header (NewRR documents Rdlength as 0)", strings.Join(uniqStrings(bad), ", "))
+}
+
+// textIgnoresRdlength: what a record prints does not depend on Hdr.Rdlength, which is bookkeeping of the wire
+// codec (set by Unpack and Pack, zero for records from text, copies and literals): no String method of a record
+// type, nor what it calls inside the package, reads that field.
+func textIgnoresRdlength(c *Ctx, r *Report, rule string) {
+	r.rule(rule, 80, "no String method of a record type (nor a package function it calls, three levels deep) reads Hdr.Rdlength")
+	for _, t := range c.rrTypes() {
+		fn := c.ssaFunc(t.Name + ".String")
+		if fn == nil {
+			continue
+		}
+		var fns []*ssa.Function
+		seen := map[*ssa.Function]bool{}
+		var collect func(f *ssa.Function, depth int)
+		collect = func(f *ssa.Function, depth int) {
+			if f == nil || seen[f] || depth > 3 || len(f.Blocks) == 0 || f.Pkg != fn.Pkg {
+				return
+			}
+			seen[f] = true
+			fns = append(fns, f)
+			allInstrs(f, func(in ssa.Instruction) {
+				if ci, ok := in.(ssa.CallInstruction); ok {
+					collect(ci.Common().StaticCallee(), depth+1)
+				}
+			})
+		}
+		collect(fn, 0)
+		var bad []string
+		for _, f := range fns {
+			allInstrs(f, func(in ssa.Instruction) {
+				switch v := in.(type) {
+				case *ssa.UnOp:
+					if v.Op == token.MUL && readsField("RR_Header", "Rdlength")(v.X) {
+						bad = append(bad, fmt.Sprintf("%s in %s", c.pos(v.Pos()), fnDisplay(f)))
+					}
+				case *ssa.Field:
+					if readsField("RR_Header", "Rdlength")(v) {
+						bad = append(bad, fmt.Sprintf("%s in %s", c.pos(v.Pos()), fnDisplay(f)))
+					}
+				}
+			})
+		}
+		r.fn(fnDisplay(fn))
+		sort.Strings(bad)
+		r.check(len(bad) == 0, rule, t.Name+".String", c.pos(fn.Pos()), "Rdlength not read", "the text depends on Hdr.Rdlength (%s), which is 0 for a record read from text, copied field by field or built in code and only set by the wire codec: such a record prints a length that does not match its data and the text is refused (or read as another record)", strings.Join(uniqStrings(bad), ", "))
+	}
+}
+
+// mappedAddressAgreement: a 16-octet address may be an IPv4-mapped one; the four codecs of the SVCB ipv6hint
+// (pack, unpack, String, parse) must treat it alike, and each says so by testing To4: a value one of them lets
+// through is refused (or printed as "<nil>") by the others.
+func mappedAddressAgreement(c *Ctx, r *Report, rule string) {
+	r.rule(rule, 4, "SVCBIPv6Hint.pack, unpack, String and parse all test the address with To4 (IPv4-mapped addresses are not IPv6 hints)")
+	for _, m := range []string{"pack", "unpack", "String", "parse"} {
+		name := "SVCBIPv6Hint." + m
+		fn := c.ssaFunc(name)
+		if fn == nil {
+			r.cerr(rule, name, "function not found")
+			continue
+		}
+		r.fn(fnDisplay(fn))
+		tests := 0
+		for _, ci := range callsIn(fn, "(net.IP).To4") {
+			// the result decides a branch
+			call, ok := ci.(*ssa.Call)
+			if !ok {
+				continue
+			}
+			for _, b := range fn.Blocks {
+				if ifi, ok := b.Instrs[len(b.Instrs)-1].(*ssa.If); ok && sliceOf(ifi.Cond)[call] {
+					tests++
+				}
+			}
+		}
+		r.check(tests > 0, rule, name, c.pos(fn.Pos()), "tests To4", "%s does not test the address with To4, its siblings do: an address in ::ffff:0:0/96 gets through here and is refused by pack and parse and printed as \"<nil>\" by String, so an accepted record has no text that reads back", name)
+	}
+}
+
+// lexerKeepsEscaped: in the zone lexer an escaped character is token text whatever it is. (a) each case of the
+// character switch of zlexer.Next that gives a character a meaning of its own (blank, tab, ';', '(', ')', '"',
+// CR) appends it to the token under a condition that mentions the escape flag; (b) a token that consists of
+// escaped characters only has begun all the same: zl.space is cleared where the escape flag is set, or in each
+// of those branches.
+func lexerKeepsEscaped(c *Ctx, r *Report, rule string) {
+	r.rule(rule, 8, "zlexer.Next keeps an escaped blank, tab, ';', '(', ')', '\"' and CR as token text, and marks the token as begun (zl.space = false) for escaped characters as well")
+	fd := c.decl("zlexer.Next")
+	if fd == nil || fd.Body == nil {
+		r.cerr(rule, "zlexer.Next", "function not found")
+		return
+	}
+	r.fn("zlexer.Next")
+	mentions := func(n ast.Node, name string) bool {
+		found := false
+		ast.Inspect(n, func(m ast.Node) bool {
+			if id, ok := m.(*ast.Ident); ok && id.Name == name {
+				found = true
+			}
+			return !found
+		})
+		return found
+	}
+	appendsToStr := func(n ast.Node) bool {
+		found := false
+		ast.Inspect(n, func(m ast.Node) bool {
+			if as, ok := m.(*ast.AssignStmt); ok && len(as.Lhs) == 1 {
+				if ix, ok := as.Lhs[0].(*ast.IndexExpr); ok {
+					if id, ok := ix.X.(*ast.Ident); ok && id.Name == "str" {
+						found = true
+					}
+				}
+			}
+			return !found
+		})
+		return found
+	}
+	clearsSpace := func(list []ast.Stmt) bool {
+		for _, st := range list {
+			as, ok := st.(*ast.AssignStmt)
+			if !ok || len(as.Lhs) != 1 || len(as.Rhs) != 1 {
+				continue
+			}
+			sel, ok := as.Lhs[0].(*ast.SelectorExpr)
+			if !ok || sel.Sel.Name != "space" {
+				continue
+			}
+			if id, ok := as.Rhs[0].(*ast.Ident); ok && id.Name == "false" {
+				return true
+			}
+		}
+		return false
+	}
+	var sw *ast.SwitchStmt
+	ast.Inspect(fd.Body, func(n ast.Node) bool {
+		if s, ok := n.(*ast.SwitchStmt); ok && sw == nil {
+			if id, ok := s.Tag.(*ast.Ident); ok && id.Name == "x" {
+				sw = s
+			}
+		}
+		return sw == nil
+	})
+	if sw == nil {
+		r.cerr(rule, "zlexer.Next", "the switch over the character read was not found")
+		return
+	}
+	want := map[string]bool{`' '`: true, `'\t'`: true, `';'`: true, `'('`: true, `')'`: true, `'"'`: true, `'\r'`: true}
+	seen := map[string]bool{}
+	allBranchesClear := true
+	for _, st := range sw.Body.List {
+		cc, ok := st.(*ast.CaseClause)
+		if !ok {
+			continue
+		}
+		for _, e := range cc.List {
+			lit, ok := e.(*ast.BasicLit)
+			if !ok || !want[lit.Value] {
+				continue
+			}
+			seen[lit.Value] = true
+			kept := false
+			for _, s := range cc.Body {
+				ifs, ok := s.(*ast.IfStmt)
+				if !ok || !mentions(ifs.Cond, "escape") || !appendsToStr(ifs.Body) {
+					continue
+				}
+				kept = true
+				if !clearsSpace(ifs.Body.List) {
+					allBranchesClear = false
+				}
+			}
+			if !kept {
+				allBranchesClear = false
+			}
+			r.check(kept, rule, "zlexer.Next:case "+lit.Value, c.pos(cc.Pos()), "kept when escaped", "the case for %s does not append the character to the token under a condition on the escape flag: an escaped %s is dropped (or acts as a separator) while its backslash stays in the token and escapes the character behind it", lit.Value, lit.Value)
+		}
+	}
+	for v := range want {
+		if !seen[v] {
+			r.cerr(rule, "zlexer.Next:case "+v, "no case for this character in the switch")
+		}
+	}
+	// (b)
+	setHere := false
+	ast.Inspect(sw, func(n ast.Node) bool {
+		var list []ast.Stmt
+		switch b := n.(type) {
+		case *ast.BlockStmt:
+			list = b.List
+		case *ast.CaseClause:
+			list = b.Body
+		default:
+			return true
+		}
+		for _, st := range list {
+			as, ok := st.(*ast.AssignStmt)
+			if !ok || len(as.Lhs) != 1 || len(as.Rhs) != 1 {
+				continue
+			}
+			l, ok1 := as.Lhs[0].(*ast.Ident)
+			v, ok2 := as.Rhs[0].(*ast.Ident)
+			if ok1 && ok2 && l.Name == "escape" && v.Name == "true" && clearsSpace(list) {
+				setHere = true
+			}
+		}
+		return true
+	})
+	r.check(setHere || allBranchesClear, rule, "zlexer.Next:token-begun", c.pos(sw.Pos()), "zl.space cleared for escapes", "zl.space is cleared neither where the escape flag is set nor in the branches that keep an escaped special: a token made of escaped specials only (backslash-semicolon, the way the library prints the label \";\") swallows the blank behind it, and an RP record whose first name is that label is refused")
 }
